@@ -138,9 +138,11 @@ CHECKS.update({
         text="Language lemmas about the real changelog patterns are proved for all lines by SMT (well-formed headers match topline, topline "
              "matches contain ';', trailer head and date are accepted by endline's parts, change / blank / header / trailer lines cannot be "
              "confused), and ChangeBlock._format is verified from its AST to write header, change lines, trailer and trailing lines exactly "
-             "from the stored components. The parser state machine (byte-identical round trip, exposed components) is decided by a bounded "
+             "from the stored components; Changelog._format (what str() and write_to_open_file produce) is verified from its AST to write "
+             "the leading blank lines, each with its newline, then the text of every block in order with the flag passed on - the "
+             "block formatter used through an abstract contract (modular call). The parser state machine (byte-identical round trip, exposed components) is decided by a bounded "
              "stand-in on texts generated from the deb-changelog(5) grammar.",
-        technique="regex-to-SMT language lemmas on the real patterns + bounded stand-in (grammar-generated texts)"),
+        technique="contract-based deductive verification of ChangeBlock._format and Changelog._format (AST -> SMT) + regex-to-SMT language lemmas on the real patterns + bounded stand-in (grammar-generated texts)"),
  "C04-old": bounded_only("texts generated from the deb-changelog(5) grammar with known components are parsed strictly with warnings as errors; "
         "str() must be byte-identical and the blocks must expose the written components;", "DESIGN.md §5 C04"),
  "C07": dict(bounded_only("", "DESIGN.md §5 C07"),
